@@ -702,3 +702,64 @@ Example C14_ref_layout_examples :
   ref_extended_event ex_extended_event = [31; 102; 114; 97; 7; 2; 7; 8; 1; 9; 0; 0; 1; 65] /\
   ref_local_time_offset ex_lto = [70; 82; 65; 2; 1; 0; 192; 121; 18; 69; 0; 2; 0].
 Proof. repeat split; vm_compute; reflexivity. Qed.
+
+(* ---- the descriptor loop above is the source ----
+   parse_descriptors -- the 12-bit loop length (bs[0]&0xf)<<8 | bs[1], the `for i.Offset() < offsetEnd` loop, the tag
+   and length bytes, the user-defined range 0x80..0xfe, the switch on the tag with its 24 cases, and the unconditional
+   Seek to the declared end of every descriptor -- is equal, as a computation in the iterator monad and on every iterator
+   whose bytes are in 0..255, to the definition that go/gen (psigen.go) translates from the CURRENT source of
+   parseDescriptors into Gen/PsiGen.v, its 23 Section Variables newDescriptor* instantiated with the body parsers of
+   Model/Desc.v; thirteen of those body parsers and the two BCD duration parsers of dvb.go are regenerated as well and
+   proved equal one by one (the others -- AC-3, enhanced AC-3, extended event, extension, ISO 639, local time offset,
+   parental rating, subtitling, teletext, VBI data -- stay tied by the correspondence runs only).  The model's loop runs
+   on offsetEnd - offset + 1 rounds of fuel, the generated one on input length + 1: the proof shows that both are enough.
+   An edit of parseDescriptors -- the loop length masked with 0x3, the Seek made conditional, a case dropped --
+   regenerates Gen/PsiGen.v and this theorem (Proofs/PsiGenDesc.v) stops checking. *)
+Require Import Model.Dvb Gen.PsiGen Proofs.ParseGenBits Proofs.PsiGenSim Proofs.PsiGenDesc.
+Theorem C14_loop_is_source :
+  same_on_bytes parse_descriptors
+    (PsiGen.parseDescriptors
+       new_descriptor_ac3 new_descriptor_avc_video new_descriptor_component new_descriptor_content
+       new_descriptor_data_stream_alignment new_descriptor_enhanced_ac3 new_descriptor_extended_event new_descriptor_extension
+       new_descriptor_iso639 new_descriptor_local_time_offset new_descriptor_maximum_bitrate new_descriptor_network_name
+       new_descriptor_parental_rating new_descriptor_private_data_indicator new_descriptor_private_data_specifier
+       new_descriptor_registration new_descriptor_service new_descriptor_short_event new_descriptor_stream_identifier
+       new_descriptor_subtitling new_descriptor_teletext new_descriptor_unknown new_descriptor_vbi_data) /\
+  same_on_bytes new_descriptor_avc_video PsiGen.newDescriptorAVCVideo /\
+  same_on_bytes new_descriptor_data_stream_alignment PsiGen.newDescriptorDataStreamAlignment /\
+  same_on_bytes new_descriptor_maximum_bitrate PsiGen.newDescriptorMaximumBitrate /\
+  same_on_bytes new_descriptor_private_data_indicator PsiGen.newDescriptorPrivateDataIndicator /\
+  same_on_bytes new_descriptor_private_data_specifier PsiGen.newDescriptorPrivateDataSpecifier /\
+  same_on_bytes new_descriptor_stream_identifier PsiGen.newDescriptorStreamIdentifier /\
+  (forall t l, same_on_bytes (new_descriptor_unknown t l) (PsiGen.newDescriptorUnknown t l)) /\
+  (forall e, same_on_bytes (new_descriptor_registration e) (PsiGen.newDescriptorRegistration e)) /\
+  (forall e, same_on_bytes (new_descriptor_network_name e) (PsiGen.newDescriptorNetworkName e)) /\
+  (forall e, same_on_bytes (new_descriptor_component e) (PsiGen.newDescriptorComponent e)) /\
+  (forall e, same_on_bytes (new_descriptor_content e) (PsiGen.newDescriptorContent e)) /\
+  same_on_bytes new_descriptor_service PsiGen.newDescriptorService /\
+  same_on_bytes new_descriptor_short_event PsiGen.newDescriptorShortEvent /\
+  same_on_bytes Model.Dvb.parse_dvb_duration_minutes PsiGen.parseDVBDurationMinutes /\
+  same_on_bytes Model.Dvb.parse_dvb_duration_seconds PsiGen.parseDVBDurationSeconds.
+Proof. exact descriptor_loop_is_source. Qed.
+Print Assumptions C14_loop_is_source.
+(* the translated parseDescriptors runs: the written loop of the six-descriptor example above (63 bytes behind the
+   length field), decoded by the generated loop with the model's bodies, gives what the model gives: six descriptors *)
+Example C14_loop_is_source_inhabited :
+  match enc_descriptors_with_length ex_all with
+  | Ok its =>
+      let bs := bytes_of_items its in
+      andb (bytes_okb bs)
+           (match run_iter (PsiGen.parseDescriptors
+                   new_descriptor_ac3 new_descriptor_avc_video new_descriptor_component new_descriptor_content
+                   new_descriptor_data_stream_alignment new_descriptor_enhanced_ac3 new_descriptor_extended_event new_descriptor_extension
+                   new_descriptor_iso639 new_descriptor_local_time_offset new_descriptor_maximum_bitrate new_descriptor_network_name
+                   new_descriptor_parental_rating new_descriptor_private_data_indicator new_descriptor_private_data_specifier
+                   new_descriptor_registration new_descriptor_service new_descriptor_short_event new_descriptor_stream_identifier
+                   new_descriptor_subtitling new_descriptor_teletext new_descriptor_unknown new_descriptor_vbi_data) bs,
+                  run_iter parse_descriptors bs with
+            | Ok a, Ok b => andb (length a =? 6)%nat (length b =? 6)%nat
+            | _, _ => false
+            end)
+  | _ => false
+  end = true.
+Proof. vm_compute. reflexivity. Qed.
